@@ -516,6 +516,11 @@ func (t *thread) subScript() ParsedScript {
 	skip := 0
 	if t.lastCodeSep > 0 {
 		skip = t.lastCodeSep + 1 // +1 to skip the opcode separator itself
+	} else if script := t.scripts[t.scriptIdx]; len(script) > 0 && t.scriptOff > 0 &&
+		script[0].op.val == bscript.OpCODESEPARATOR {
+		// lastCodeSep == 0 also stands for "none": a separator that is the very
+		// first opcode (always executed, it cannot sit inside a branch) is at index 0
+		skip = 1
 	}
 	return t.scripts[t.scriptIdx][skip:]
 }
